@@ -487,6 +487,17 @@ fn minimise_with(run: &Run, target: &Violation, budget: u64, check: &mut dyn FnM
         Some(v) => v,
         None => return (best, target.clone(), execs),
     };
+    // wall-clock cap per violation (a statistical clause over a 10^4..10^5-event history needs the whole
+    // history; shrinking it further would cost minutes per attempt): what has been reached by then is
+    // written out - any prefix of the minimisation is a valid, exactly replayable failing run
+    let cap_s: u64 = std::env::var("VERIF_MINIMISE_S").ok().and_then(|s| s.parse().ok()).unwrap_or(60);
+    let deadline = std::time::Instant::now() + std::time::Duration::from_secs(cap_s);
+    let budget = budget;
+    macro_rules! go {
+        () => {
+            execs < budget && std::time::Instant::now() < deadline
+        };
+    }
     // 1. cut everything after the violating event
     if bestv.event + 1 < best.events.len() {
         let mut c = best.clone();
@@ -498,10 +509,10 @@ fn minimise_with(run: &Run, target: &Violation, budget: u64, check: &mut dyn FnM
     }
     // 2. delta debugging over events
     let mut chunk = (best.events.len() / 2).max(1);
-    while chunk >= 1 && execs < budget {
+    while chunk >= 1 && go!() {
         let mut i = 0;
         let mut progressed = false;
-        while i < best.events.len() && execs < budget {
+        while i < best.events.len() && go!() {
             let end = (i + chunk).min(best.events.len());
             let mut c = best.clone();
             c.events.drain(i..end);
@@ -524,11 +535,11 @@ fn minimise_with(run: &Run, target: &Violation, budget: u64, check: &mut dyn FnM
     }
     // 3. argument shrinking, to a fixpoint
     let mut changed = true;
-    while changed && execs < budget {
+    while changed && go!() {
         changed = false;
         for i in 0..best.events.len() {
             for cand in shrink_event(&best.events[i]) {
-                if execs >= budget {
+                if !go!() {
                     break;
                 }
                 let mut c = best.clone();
